@@ -383,7 +383,7 @@ def gen_state_canonical(nb, nd, kinds, depth):
 # counters: harness tokens (dc cc mc vc vm vt va vr kc rc ra dt ca ma ri rd), "create", "observations"
 # (every step reads useCount of every live object and operator bool/->/* of every handle), "cmp_pairs"
 # (every pair of live handles, same and mixed static types: ==, !=, < in both operand orders),
-# "null_literal_ctor"/"null_literal_assign", "destructions", "threads_ops", "traits".
+# "null_literal_ctor"/"null_literal_assign", "destructions", "threads_ops", "traits", "deep" (explicit refInc calls of the deep-count witness).
 HIST = "seq_count_is_creator_plus_handles(_tbl,_src) seq_no_error_state seq_destroyed_by_last_release"
 COVER = {
     "IntrusivePtr<T>::ptr : T *":
@@ -428,14 +428,14 @@ COVER = {
     "RefCountedObject::rkcommon::memory::RefCountedObject & operator=(rkcommon::memory::RefCountedObject &&) = delete":
         dict(thm="members_closed (DRcDeletedCopy 4)", ops=["traits"]),
     "RefCountedObject::void refInc() const":
-        dict(thm="facts_match (rc_inc_single, rc_atomic); conc_* theorems (one atomic step)", ops=["ri", "cc", "threads_ops"]),
+        dict(thm="facts_match (rc_inc_single, rc_atomic); conc_* theorems (one atomic step)", ops=["ri", "cc", "threads_ops", "deep"]),
     "RefCountedObject::void refDec() const":
         dict(thm="facts_match (rc_dec_single, rc_dec_own_result, rc_dec_deletes); delete_by_the_decrement_that_returned_zero",
              ops=["rd", "dt", "threads_ops"]),
     "RefCountedObject::long long useCount() const":
         dict(thm="facts_match (rc_use_load); Model.use_count in every history theorem", ops=["observations"]),
     "RefCountedObject::refCounter : mutable std::atomic<long long>":
-        dict(thm="facts_match (rc_atomic, rc_init_one)", ops=["observations", "threads_ops"]),
+        dict(thm="facts_match (rc_atomic, rc_init_one, rc_width64); seq_count_fits_64bit_counter(_tbl,_src)", ops=["observations", "threads_ops", "deep"]),
     "template<T,U> bool operator<(const IntrusivePtr<T> &, const IntrusivePtr<U> &)":
         dict(thm="free_functions_closed, cmp_facts_match, comparisons_src (address order)", ops=["cmp_pairs"]),
     "template<T,U> bool operator==(const IntrusivePtr<T> &, const IntrusivePtr<U> &)":
@@ -529,7 +529,7 @@ def st_facts(ctx, S):
         os.makedirs(os.path.dirname(gen_v), exist_ok=True)
         txt = factgen.coq_text({m: ["MUnknown"] for m in factgen.METHS},
                                {k: False for k in ("rc_atomic", "rc_init_one", "rc_inc_single", "rc_dec_single",
-                                                   "rc_dec_own_result", "rc_dec_deletes", "rc_use_load")})
+                                                   "rc_dec_own_result", "rc_dec_deletes", "rc_use_load", "rc_width64")})
         if not os.path.exists(gen_v) or open(gen_v).read() != txt:
             open(gen_v, "w").write(txt)
     ctx.cov["source_facts"] = {"table": S.facts.get("table"), "rc": S.facts.get("rc"), "info": S.facts.get("info"), "notes": S.facts.get("notes")}
@@ -778,6 +778,37 @@ def st_traits(ctx, S):
         S.reported = True
 
 
+def st_deep(ctx, S):
+    """deep count witness: k explicit refInc() on one object, k at 2^j-2..2^j+2; useCount must be creator + k
+    exactly and the object alive.  Up to 2^24 on an unchanged tree (the width is a checked fact), up to 2^31+2
+    (about 6-16 s) when the counter's width fact or its inventory entry is broken, and in the thorough tier."""
+    inv = (S.facts.get("info") or {}).get("inventory") or []
+    counter_decl_known = any(d.startswith("RefCountedObject::refCounter") and d in COVER for d in inv)
+    width_ok = bool((S.facts.get("rc") or {}).get("rc_width64")) and counter_decl_known
+    log2 = 31 if (ctx.thorough() or not width_ok) else 24
+    if log2 == 31 and over_budget(ctx, 170.0):
+        log2 = 24
+        ctx.broken.append("deep count: wall-clock budget exhausted, ran only up to 2^24 although the counter width fact is broken")
+    rc, out, err = ctx.run_exe(S.exe, ["deep", str(log2)], timeout=180)
+    ctx.count(1)
+    line = out.strip().splitlines()[-1] if out.strip() else ""
+    S.deep_k = 0
+    ctx.cov["deep_count"] = {"log2_max": log2, "width_fact_ok": width_ok, "result": line, "rc": rc}
+    if rc == 0 and line.startswith("deep ok"):
+        S.deep_k = int(line.split("k=")[1].split()[0])
+        return
+    if not S.reported:
+        kv = dict(t.split("=", 1) for t in line.split() if "=" in t)
+        ctx.violation("useCount() is not creator + explicit references after k explicit refInc() calls (counter width)",
+                      {"history": "cB followed by k = %s explicit refInc() on object 0 (ri:0 repeated k times)" % kv.get("k", "?"),
+                       "k": kv.get("k"), "observed": line or ("harness deep died rc=%d" % rc), "stderr_tail": err[-1500:],
+                       "command": "build/C08/harness_asan deep %d" % log2,
+                       "counter_value_type": (S.facts.get("info") or {}).get("counter_value_type"),
+                       "required": "useCount() == 1 + k exactly, object alive, a handle copy + drop changes nothing "
+                                   "(the theorems hold for histories shorter than 2^63: seq_count_fits_64bit_counter)"})
+        S.reported = True
+
+
 def st_inventory(ctx, S):
     counters = {}
     for gname, nb, nd, cases in (S.groups if S.noracle else []):
@@ -794,6 +825,7 @@ def st_inventory(ctx, S):
     counters["destructions"] = S.destructions
     counters["threads_ops"] = sum(t["threads"] * t["ops_per_thread"] for t in S.tres if t.get("rc") == 0)
     counters["traits"] = 1 if S.traits_ran else 0
+    counters["deep"] = getattr(S, "deep_k", 0)
     inv = (S.facts.get("info") or {}).get("inventory") or []
     invrep = {}
     if not inv:
@@ -858,6 +890,7 @@ def run(ctx):
     S.reported = False
     S.nmis = S.noracle = S.compared = S.obs_steps = S.cmp_pairs = S.destructions = 0
     S.traits_ran = False
+    S.deep_k = 0
     ctx.trusted += ["fact extractor props/C08/factgen.py over `clang++ -std=c++11 -fsyntax-only -Xclang -ast-dump=json` of an "
                     "instantiation of IntrusivePtr<Base> (classifies statements of the special members into MInc/MDec/MStore; "
                     "anything unrecognised becomes MUnknown and fails the Coq check)",
@@ -881,6 +914,7 @@ def run(ctx):
         stage(ctx, "threads", st_threads, ctx, S)
     if S.exe:
         stage(ctx, "traits", st_traits, ctx, S)
+        stage(ctx, "deep-count", st_deep, ctx, S)
     stage(ctx, "inventory", st_inventory, ctx, S)
     ctx.cov["mismatches"] = S.nmis
     ctx.cov["oracle_evaluated_histories"] = S.noracle
